@@ -1241,6 +1241,22 @@ def run_C15(pid, tier, seed, model_ok=True):
         al = gen.Alphabet(ctx)
         hs = [('codes', [al.init] + al.seq(['u1', 'u1', 'uperr', 'udl2', 'uh2', 'upnone', 's', 'fail', 'u1', 'p', 'q', 'u2', 'p', 'p', 'R', 'p']) + ['op update - err err'])]
         hs.append(('codes_noinit', ['op update - err err', 'op nextpath', al.init, 'op nextpath']))
+        # the three exported entry points that return nothing: shorebird_update, shorebird_start_update_thread,
+        # shorebird_check_for_update behave as update(None) / check(None) with the answer dropped
+        u_of = lambda kind, o: o.replace('op update - ', 'op %s ' % kind, 1)
+        nores = 0
+        for pk in ('empty', 'good1', 'good1pend2', 'good1boot2', 'good1bad2'):
+            for kind in ('update0', 'updatet'):
+                for lab in ('u1', 'u2', 'u3', 'upnone', 'uperr', 'udl2', 'uh2', 'rb1', 'u3rb2'):
+                    o = al.ops[lab][0]
+                    assert o.startswith('op update - ')
+                    hs.append(('nores%d' % nores, [al.init] + al.seq(PFX[pk]) + [u_of(kind, o)] + al.seq(['q', 'p', 'c', 's', 'c', 'ok', 'q', 'R', 'q'])))
+                    nores += 1
+            for lab in ('ck2', 'crb1', 'ckerr'):
+                o = al.ops[lab][0].replace('op check - ', 'op check0 ', 1)
+                hs.append(('nores%d' % nores, [al.init] + al.seq(PFX[pk]) + [o] + al.seq(['q', 'p', 'c'])))
+                nores += 1
+        hs.append(('nores_noinit', ['op update0 err err', 'op updatet err err', 'op check0 err', al.init, 'op nextnum']))
         model, impl, ex = run_both(ctx.header(), hs, work, impl_only=not model_ok)
         extras += ex
         if model_ok:
@@ -1255,7 +1271,7 @@ def run_C15(pid, tier, seed, model_ok=True):
                 fails.append(('codes', 0, 'C15: status %s was not delivered through the C API by the scenario that should produce it' % code, hs[0][1], ctx.header()))
         f = os.path.join(work, 'vg.ops')
         os.makedirs(work, exist_ok=True)
-        write_opfile(f, ctx.header(), hs)
+        write_opfile(f, ctx.header(), hs[:12])
         vg = sh(['valgrind', '--error-exitcode=9', '--leak-check=no', '-q', UVH, 'replay', f, os.path.join(work, 'vgw')], timeout=600)
         if vg.returncode == 9:
             fails.append(('valgrind', 0, 'C15: memcheck reports an invalid free / access on strings or results returned by the library: ' + vg.stderr[-600:], hs[0][1], ctx.header()))
@@ -1267,8 +1283,8 @@ def run_C15(pid, tier, seed, model_ok=True):
     nent = len(re.findall(r'^\s+\("', tbl, flags=re.M))
     return dict(evaluations=nent + len(syms) + 20, distinct=nent, samples=[{'exported_symbols': sorted(syms)[:6]}, {'table_rows': nent}],
                 divergences=divs, monitor_fail=fails,
-                rule='tables regenerated from c_api/mod.rs, updater.rs, include/updater.h and the Dart bindings (every exported prototype, repr(C) struct, SHOREBIRD_* constant, UpdateStatus variant); nm -D of the cdylib built from the current tree; every status code provoked through the C API; one scenario under valgrind memcheck; non-trivial = table rows',
-                dist={'symbols': len(syms)}, extras=extras, traces=2)
+                rule='tables regenerated from c_api/mod.rs, updater.rs, include/updater.h and the Dart bindings (every exported prototype, repr(C) struct, SHOREBIRD_* constant, UpdateStatus variant); nm -D of the cdylib built from the current tree; every status code provoked through the C API; shorebird_update / shorebird_start_update_thread / shorebird_check_for_update from 5 lifecycle states x 9 server answers vs update(None) / check(None) of the model; scenarios under valgrind memcheck; non-trivial = table rows',
+                dist={'symbols': len(syms), 'resultless_entry_point_histories': nores}, extras=extras, traces=len(hs))
 
 
 
